@@ -78,7 +78,20 @@ let n_of_hex (s : string) : coq_N =
   n_of_bits !bits
 let n_of_int (i : int) : coq_N = n_of_hex (Printf.sprintf "%x" i)
 let int_of_n (n : coq_N) : int = int_of_string ("0x" ^ hex_of_n n)
+let big s = n_of_hex (Printf.sprintf "%x" (int_of_string s))
 let hex_of_z = function Z0 -> "0" | Zpos p -> hex_of_n (Npos p) | Zneg p -> "-" ^ hex_of_n (Npos p)
+
+let digest (l : coq_N list) : string =
+  let a = Array.of_list (L.map int_of_n l) in
+  let n = Array.length a in
+  let hexr i j = let b = Buffer.create 64 in for k = i to j - 1 do Buffer.add_string b (Printf.sprintf "%02x" a.(k)) done; Buffer.contents b in
+  if n <= 600 then Printf.sprintf "%d %s" n (if n = 0 then "-" else hexr 0 n)
+  else begin
+    let sum = ref 0 and xr = ref 0 in
+    Array.iter (fun x -> sum := (!sum * 31 + x) land 0xffffffff; xr := ((((!xr lsl 1) lor (!xr lsr 7)) land 0xff) lxor x)) a;
+    Printf.sprintf "%d #%08x.%02x.%s.%s" n !sum !xr (hexr 0 24) (hexr (n - 24) n)
+  end
+
 
 (* ---------------- C06 ---------------- *)
 let c06 ic =
@@ -210,29 +223,74 @@ let rop_of_line line : ReadRun.rop option =
   let big s = n_of_hex (Printf.sprintf "%x" (int_of_string s)) in
   match split line with
   | ["ROOT"] -> Some ReadRun.RRoot
-  | ["PROP"; s; n] | ["IPROP"; s; n] -> Some (ReadRun.RProp (sc s, nlist_of_hex n))
-  | ["IDX"; s; i] -> Some (ReadRun.RIdx (sc s, (try big i with _ -> n_of_hex "ffffffffffffffff")))
+  | ["APROP"; s; n] | ["PROP"; s; n] | ["IPROP"; s; n] -> Some (ReadRun.RProp (sc s, nlist_of_hex n))
+  | ["AIDX"; s; i] | ["IDX"; s; i] -> Some (ReadRun.RIdx (sc s, (try big i with _ -> n_of_hex "ffffffffffffffff")))
   | ["KEY"; s; i] -> Some (ReadRun.RKey (sc s, (try big i with _ -> n_of_hex "ffffffffffffffff")))
   | ["LEN"; s] -> Some (ReadRun.RLen (sc s))
   | ["STR"; s] -> Some (ReadRun.RStr (sc s))
   | _ -> None
 
+(* API-level accessors (api/src/lib.rs Value::array_len / obj_len / as_string / get_obj_key_at_index) on top of
+   the provider-level model: inline length = min(true, limit); the length query is consulted at the limit *)
+type n_opt = coq_N option
+type aop = ALen of n_opt | AStr of n_opt | AKey of n_opt * coq_N
+
+let aop_of_line line : aop option =
+  let sc s = if s = "g" then None else Some (n_of_int (int_of_string s)) in
+  match split line with
+  | ["ALEN"; s] -> Some (ALen (sc s)) | ["ASTR"; s] -> Some (AStr (sc s))
+  | ["AKEY"; s; i] -> Some (AKey (sc s, (try big i with _ -> n_of_hex "ffffffffffffffff")))
+  | _ -> None
+
 let c01 ic =
   let id = ref 0 and w = ref (n_of_int 64) and doc = ref [] and ops = ref [] and cls = ref "" in
+  let inl wd l = let m = NanBoxGen.coq_MAX_VALUE_LENGTH wd in if BinNat.N.leb l m then l else m in
+  let vlen_of roots sc = match Lazy.get_val_len roots sc with Lazy.OLen x -> x | _ -> None in
+  let astr wd bs roots sc : string =
+    (match sc with
+     | Lazy.SAns (Lazy.AStr (_, l)) ->
+         let n = ApiLen.api_str_len wd (inl wd l) (vlen_of roots sc) in
+         (match Lazy.read_str bs roots sc n with
+          | Lazy.OBytes (Some s) -> "ABYTES " ^ digest s | Lazy.OBytes None -> "ABYTES NONE" | Lazy.OStray -> "STRAY" | _ -> "PANIC")
+     | _ -> "ABYTES NONE") in
   let flush_case () =
     let bs = !doc in
     let opl = L.rev !ops in
     let fuel = nat_of_int (4 * L.length bs + 64) in
+    let has_api = L.exists (function `A _ -> true | `R _ -> false) opl in
     (* model: step by step *)
     let st = ref ReadRun.rinit in
     L.iter (fun op ->
-      st := ReadRun.exec !w true fuel bs !st op;
-      let o = L.nth (L.rev !st.ReadRun.outs) 0 in
-      Printf.printf "M %d %s\n" !id (show_out !w o)) opl;
-    (* spec: only for well-formed documents; computed from the decoded tree alone *)
+      match op with
+      | `R rop ->
+          st := ReadRun.exec !w true fuel bs !st rop;
+          let o = L.nth (L.rev !st.ReadRun.outs) 0 in
+          Printf.printf "M %d %s\n" !id (show_out !w o)
+      | `A a ->
+          let roots = !st.ReadRun.roots in
+          let scope s = ReadRun.scope_of !st s in
+          let line = (match a with
+            | ALen s -> (match scope s with
+                | Lazy.SAns (Lazy.AStr (_, l)) | Lazy.SAns (Lazy.AArr (_, l)) | Lazy.SAns (Lazy.AObj (_, l)) ->
+                    let sc = scope s in
+                    (match sc with
+                     | Lazy.SAns (Lazy.AStr _) -> Printf.sprintf "ALEN %d" (int_of_n (ApiLen.api_str_len !w (inl !w l) (vlen_of roots sc)))
+                     | _ -> (match ApiLen.api_len !w (inl !w l) (vlen_of roots sc) with Some n -> Printf.sprintf "ALEN %d" (int_of_n n) | None -> "ALEN NONE"))
+                | _ -> "ALEN NONE")
+            | AStr s -> astr !w bs roots (scope s)
+            | AKey (s, i) -> (match scope s with
+                | Lazy.SAns (Lazy.AObj _) ->
+                    let (roots', o) = Lazy.get_obj_key_at_index !w true fuel bs roots (scope s) i in
+                    st := { ReadRun.roots = roots'; ReadRun.outs = !st.ReadRun.outs };
+                    (match o with Lazy.OVal a -> astr !w bs roots' (Lazy.SAns a) | Lazy.OPanic _ -> "PANIC" | _ -> "ABYTES NONE")
+                | _ -> "ABYTES NONE")) in
+          (* an accessor answer is not a handle: keep the answer numbering aligned with the harness *)
+          st := { ReadRun.roots = !st.ReadRun.roots; ReadRun.outs = !st.ReadRun.outs @ [Lazy.OBytes None] };
+          Printf.printf "M %d %s\n" !id line) opl;
+    (* spec: only for well-formed documents and provider-level histories; computed from the decoded tree alone *)
     (match (try Some (wire_of_bytes (Array.of_list (L.map int_of_n bs))) with Malformed -> None) with
-     | Some wt when Wire.wf wt && Wire.no_nan wt && Wire.enc wt = bs ->
-         L.iter (fun o -> Printf.printf "S %d %s\n" !id (show_out !w o)) (ReadSpec.spec_run wt opl)
+     | Some wt when (not has_api) && Wire.wf wt && Wire.no_nan wt && Wire.enc wt = bs ->
+         L.iter (fun o -> Printf.printf "S %d %s\n" !id (show_out !w o)) (ReadSpec.spec_run wt (L.filter_map (function `R r -> Some r | _ -> None) opl))
      | _ -> Printf.printf "S %d NOSPEC\n" !id) in
   (try while true do
     let line = input_line ic in
@@ -241,22 +299,12 @@ let c01 ic =
     | ["DOC"; h] -> doc := nlist_of_hex h
     | ["END"] -> flush_case ()
     | [] -> ()
-    | _ -> (match rop_of_line line with Some op -> ops := op :: !ops | None -> failwith ("c01: bad line " ^ line))
+    | _ -> (match rop_of_line line with
+            | Some op -> ops := `R op :: !ops
+            | None -> (match aop_of_line line with Some a -> ops := `A a :: !ops | None -> failwith ("c01: bad line " ^ line)))
   done with End_of_file -> ())
 
-
 (* ---------------- C02 / C03: output writer ---------------- *)
-let digest (l : coq_N list) : string =
-  let a = Array.of_list (L.map int_of_n l) in
-  let n = Array.length a in
-  let hexr i j = let b = Buffer.create 64 in for k = i to j - 1 do Buffer.add_string b (Printf.sprintf "%02x" a.(k)) done; Buffer.contents b in
-  if n <= 600 then Printf.sprintf "%d %s" n (if n = 0 then "-" else hexr 0 n)
-  else begin
-    let sum = ref 0 and xr = ref 0 in
-    Array.iter (fun x -> sum := (!sum * 31 + x) land 0xffffffff; xr := ((((!xr lsl 1) lor (!xr lsr 7)) land 0xff) lxor x)) a;
-    Printf.sprintf "%d #%08x.%02x.%s.%s" n !sum !xr (hexr 0 24) (hexr (n - 24) n)
-  end
-
 let z_of_string (s : string) : coq_Z = z_of_int (int_of_string s)
 
 let rec show_tree (t : Tree.tree) : string =
